@@ -26,9 +26,13 @@ def Spec.obj (P : Pack) : Nat → Nat → Option (Kind × Bytes)
       | some (k, bd) => (applyStrict bd (deltaInfo delta)).map fun r => (k, r)
     | some (.ref id delta _) =>
       match P.resolve id with
-      | none => none
       | some b =>
         match Spec.obj P fuel b with
+        | none => none
+        | some (k, bd) => (applyStrict bd (deltaInfo delta)).map fun r => (k, r)
+      | none =>
+        -- a thin pack: the base is an object outside the pack
+        match P.external id with
         | none => none
         | some (k, bd) => (applyStrict bd (deltaInfo delta)).map fun r => (k, r)
 
@@ -53,7 +57,7 @@ theorem Spec.obj_succ (P : Pack) : ∀ (fuel off : Nat) (v : Kind × Bytes),
       | ref id delta p =>
         simp only [he] at h ⊢
         cases hr : P.resolve id with
-        | none => simp [hr] at h
+        | none => simpa [hr] using h
         | some b =>
           simp only [hr] at h ⊢
           cases hb : Spec.obj P fuel b with
@@ -111,6 +115,7 @@ theorem applyDelta_length (base : Bytes) (n : Nat) (data out : Bytes) (h : apply
 def WalkEnd.val : WalkEnd → Kind × Bytes
   | .base k d => (k, d)
   | .hit v => (v.kind, v.data)
+  | .external k d => (k, d)
 
 /-- apply the chain items (oldest first) the strict way -/
 def replay : Kind × Bytes → List ChainItem → Option (Kind × Bytes)
@@ -218,7 +223,22 @@ theorem walk_spec (P : Pack) (M : CacheModel) (K : CacheContract M) :
           · intro _; exact Or.inr ⟨val, rfl⟩
         | none =>
           cases hr : P.resolve baseId with
-          | none => simp [hr] at hs
+          | none =>
+            -- a base outside the pack: the walk stops there, with the delta already on the chain
+            simp only [hr] at hs
+            cases hx : P.external baseId with
+            | none => simp [hx] at hs
+            | some kd =>
+              obtain ⟨k, bd⟩ := kd
+              simp only [hx] at hs
+              refine ⟨[{ off := cursor, info := deltaInfo delta, packed := packed, raw := delta }], .external k bd,
+                (M.get c cursor).2, ?_, K.get_inv cursor hinv, ?_, by simp⟩
+              · have : M.get c cursor = (none, (M.get c cursor).2) := by rw [← hg]
+                simp only [walk, he]; rw [this]; simp only [hr, hx]; simp
+              · simp only [replay, WalkEnd.val]
+                cases ha : applyStrict bd (deltaInfo delta) with
+                | none => simp [ha] at hs
+                | some r => simpa [ha, replay] using hs
           | some baseOff =>
             simp only [hr] at hs
             cases hb : Spec.obj P fuel baseOff with
